@@ -28,6 +28,7 @@ for name in sorted(os.listdir(D)):
                 res[p] = entry
     finally:
         subprocess.run(["git", "-C", "/repo", "checkout", "--", "."], check=True)
+        subprocess.run(["git", "-C", "/repo", "clean", "-fdq", "src", "tests"], check=True)
     results[name] = {"alarms": res, "silent": not res, "wall_s": round(time.time() - t0)}
     print(name, "SILENT" if not res else res, flush=True)
     json.dump(results, open(rp, "w"), indent=1)
